@@ -1205,6 +1205,8 @@ def kms_routines(impl):
             continue
         words = {x.attr for x in ast.walk(f.node) if isinstance(x, ast.Attribute)} | {x.id for x in ast.walk(f.node) if isinstance(x, ast.Name)}
         role = "es" if words & {"ECDSA", "decode_dss_signature"} else ("prehashed" if words & {"SHA512", "eddsa"} else "ed")
+        if role in out and out[role] is f:
+            continue  # the same function registered under two names (a renamed anchor, index._renamed)
         if role in out:
             raise AnalysisError(f"{impl.fq}: two signing routines of kind {role} ({out[role].name}, {n})")
         out[role] = f
